@@ -115,22 +115,31 @@ fn expect_passthrough(want: &mut Sink<8>, op: &Op) -> Res {
     }
 }
 
+fn mk_never<S: anstream::stream::RawStream>(s: S) -> AutoStream<S> {
+    AutoStream::new(s, ColorChoice::Never)
+}
+fn mk_always_ansi<S: anstream::stream::RawStream>(s: S) -> AutoStream<S> {
+    AutoStream::new(s, ColorChoice::AlwaysAnsi)
+}
+fn mk_always<S: anstream::stream::RawStream>(s: S) -> AutoStream<S> {
+    AutoStream::new(s, ColorChoice::Always)
+}
+
 macro_rules! never_case {
-    ($name:ident, $ctor:expr) => {
+    ($name:ident, $ctor:path) => {
         /// Choice Never: same return values and same bytes as a strip stream, any two ops.
         #[kani::proof]
-        #[kani::unwind(8)]
+        #[kani::unwind(10)]
         fn $name() {
             let op1 = any_op();
             let op2 = any_op();
             let mut got: Sink<8> = Sink::new();
             let mut want: Sink<8> = Sink::new();
             {
-                let wg: &mut dyn std::io::Write = &mut got;
-                let ctor: fn(&mut dyn std::io::Write) -> AutoStream<&mut dyn std::io::Write> = $ctor;
-                let mut auto = ctor(wg);
+                let wg: &mut (dyn std::io::Write + 'static) = &mut got;
+                let mut auto = $ctor(wg);
                 assert!(auto.current_choice() == ColorChoice::Never, "reported mode is the one in force");
-                let ww: &mut dyn std::io::Write = &mut want;
+                let ww: &mut (dyn std::io::Write + 'static) = &mut want;
                 let mut strip = StripStream::new(ww);
                 let r1 = apply(&mut auto, &op1);
                 let s1 = apply(&mut strip, &op1);
@@ -138,7 +147,7 @@ macro_rules! never_case {
                 let r2 = apply(&mut auto, &op2);
                 let s2 = apply(&mut strip, &op2);
                 assert!(r2 == s2, "second operation: same result as the strip stream");
-                let _back: &mut dyn std::io::Write = auto.into_inner();
+                let _back: &mut (dyn std::io::Write + 'static) = auto.into_inner();
             }
             assert!(sinks_equal(&got, &want), "inner writer received exactly what the strip stream delivers");
             kani::cover!(op1.kind == 0 && op2.kind == 3 && want.len == 3);
@@ -148,23 +157,22 @@ macro_rules! never_case {
     };
 }
 
-never_case!(never_two_ops, |w| AutoStream::never(w));
-never_case!(new_never_two_ops, |w| AutoStream::new(w, ColorChoice::Never));
+never_case!(never_two_ops, AutoStream::never);
+never_case!(new_never_two_ops, mk_never);
 
 macro_rules! passthrough_case {
-    ($name:ident, $ctor:expr) => {
+    ($name:ident, $ctor:path) => {
         /// AlwaysAnsi / Always: every byte forwarded unchanged, any two ops.
         #[kani::proof]
-        #[kani::unwind(8)]
+        #[kani::unwind(10)]
         fn $name() {
             let op1 = any_op();
             let op2 = any_op();
             let mut got: Sink<8> = Sink::new();
             let mut want: Sink<8> = Sink::new();
             {
-                let wg: &mut dyn std::io::Write = &mut got;
-                let ctor: fn(&mut dyn std::io::Write) -> AutoStream<&mut dyn std::io::Write> = $ctor;
-                let mut auto = ctor(wg);
+                let wg: &mut (dyn std::io::Write + 'static) = &mut got;
+                let mut auto = $ctor(wg);
                 let c = auto.current_choice();
                 assert!(c == ColorChoice::AlwaysAnsi || c == ColorChoice::Always, "reported mode is the one in force");
                 let r1 = apply(&mut auto, &op1);
@@ -173,7 +181,7 @@ macro_rules! passthrough_case {
                 let r2 = apply(&mut auto, &op2);
                 let e2 = expect_passthrough(&mut want, &op2);
                 assert!(r2 == e2, "second operation forwarded unchanged");
-                let _back: &mut dyn std::io::Write = auto.into_inner();
+                let _back: &mut (dyn std::io::Write + 'static) = auto.into_inner();
             }
             assert!(sinks_equal(&got, &want), "every byte forwarded unchanged, in order");
             kani::cover!(op1.kind == 0 && op1.a[0] == 0x1B && got.len >= 1);
@@ -182,14 +190,14 @@ macro_rules! passthrough_case {
     };
 }
 
-passthrough_case!(always_ansi_two_ops, |w| AutoStream::always_ansi(w));
-passthrough_case!(always_two_ops, |w| AutoStream::always(w));
-passthrough_case!(new_always_ansi_two_ops, |w| AutoStream::new(w, ColorChoice::AlwaysAnsi));
-passthrough_case!(new_always_two_ops, |w| AutoStream::new(w, ColorChoice::Always));
+passthrough_case!(always_ansi_two_ops, AutoStream::always_ansi);
+passthrough_case!(always_two_ops, AutoStream::always);
+passthrough_case!(new_always_ansi_two_ops, mk_always_ansi);
+passthrough_case!(new_always_two_ops, mk_always);
 
 /// Owned in-memory writer: taking the inner writer back returns all bytes delivered so far.
 #[kani::proof]
-#[kani::unwind(8)]
+#[kani::unwind(10)]
 fn vec_into_inner() {
     let a: [u8; 2] = kani::any();
     let never: bool = kani::any();
